@@ -152,13 +152,32 @@ class PyRepo:
                             rows = [tuple(x.elts) if isinstance(x, ast.Tuple) else (x,) for x in literal(it).elts]
                         elif isinstance(literal(it), ast.Dict) and all(isinstance(k, ast.Constant) for k in literal(it).keys):
                             rows = [(k,) for k in literal(it).keys]
-                        tg = [] if single else [t.id for t in (st.target.elts if isinstance(st.target, ast.Tuple) else [st.target]) if isinstance(t, ast.Name)]
+                        def flat_t(t):
+                            return [y for x in t.elts for y in flat_t(x)] if isinstance(t, (ast.Tuple, ast.List)) else [t]
+
+                        def flat_r(t, v):
+                            # a row laid out like the (possibly nested) loop target
+                            if isinstance(t, (ast.Tuple, ast.List)):
+                                if not (isinstance(v, (ast.Tuple, ast.List)) and len(v.elts) == len(t.elts)):
+                                    return None
+                                out = []
+                                for t_, v_ in zip(t.elts, v.elts):
+                                    sub = flat_r(t_, v_)
+                                    if sub is None:
+                                        return None
+                                    out += sub
+                                return out
+                            return [v]
+                        if not single and rows is not None and isinstance(st.target, ast.Tuple) and any(isinstance(x, (ast.Tuple, ast.List)) for x in st.target.elts):
+                            rows2 = [flat_r(st.target, ast.Tuple(elts=list(r), ctx=ast.Load())) for r in rows]
+                            rows = None if any(r is None for r in rows2) else [tuple(r) for r in rows2]
+                        tg = [] if single else [t.id for t in flat_t(st.target) if isinstance(t, ast.Name)]
                         factory = mi.functions[c.args[2].func.id]
                         fbody = [x for x in factory.body if not (isinstance(x, ast.Expr) and isinstance(x.value, ast.Constant))]
                         inner = [x for x in fbody if isinstance(x, ast.FunctionDef)]
                         ret = [x for x in fbody if isinstance(x, ast.Return)]
                         other = [x for x in fbody if x not in inner and x not in ret
-                                 and not (isinstance(x, ast.Assign) and ast.unparse(x.targets[0]).endswith('.__name__'))]
+                                 and not (isinstance(x, ast.Assign) and ast.unparse(x.targets[0]).endswith(('.__name__', '.__qualname__', '.__doc__')))]
                         if rows is not None and (tg or single) and all(len(r) == len(tg) for r in rows) and len(inner) == 1 and len(ret) == 1 and not other \
                                 and (single or isinstance(c.args[1], ast.Name) and c.args[1].id in tg) and not c.args[2].keywords:
                             fparams = [a.arg for a in factory.args.args]
@@ -195,6 +214,7 @@ class PyRepo:
                                         rows = None
                                         break
                                     g.name = nm.value
+                                    self._destar_installed(ci, g, mname)
                                     if deco is not None:
                                         d2 = S().visit(copy.deepcopy(deco))
                                         # `C.deco(args)` spelled inside the class body is `deco(args)`
@@ -213,6 +233,82 @@ class PyRepo:
                                 done = rows is not None
                     if not done:
                         self.dynamic_installs.append((mname, ci.name, c))
+
+    def _destar_installed(self, ci, g, mname) -> None:
+        """a generated method `def m(self, *args[, **kwargs])` that overrides a method of a base class is given that method's
+        parameter list: `*args` in calls becomes the parameters, `args[i]` the i-th one, `args[:k]` the first k, `**kwargs` in the
+        forwarding call disappears (the parameters are passed by name or position alike).  When the method took `**kwargs` as well
+        and reads `args` other than to forward it, what it does with an argument depends on HOW the caller passed it: recorded in
+        `self.call_style_operands` (a rule of C02 / C14 reports it)."""
+        import copy
+        from .pynormal import fold_reflective_calls
+        if not hasattr(self, 'call_style_operands'):
+            self.call_style_operands = []
+        if g.args.vararg is None:
+            return
+        base = None
+        for mi2 in self.modules.values():
+            pass
+        try:
+            chain = self.mro(ci)[1:]
+        except Exception:  # noqa: BLE001
+            chain = []
+        base = next((k.methods[g.name] for k in chain if g.name in k.methods), None)
+        if base is None or base.args.vararg or base.args.kwarg or base.args.kwonlyargs or len(g.args.args) != 1:
+            return
+        A = g.args.vararg.arg
+        K = g.args.kwarg.arg if g.args.kwarg is not None else None
+        params = [a.arg for a in base.args.args[1:]]
+        fold_reflective_calls(g)
+        other_use = [0]
+
+        class D(ast.NodeTransformer):
+            def visit_Call(self, c):
+                new = []
+                for a in c.args:
+                    if isinstance(a, ast.Starred) and isinstance(a.value, ast.Name) and a.value.id == A:
+                        new.extend(ast.Name(id=p_, ctx=ast.Load()) for p_ in params)
+                    else:
+                        new.append(self.visit(a))
+                c.args = new
+                c.keywords = [k for k in c.keywords if not (k.arg is None and isinstance(k.value, ast.Name) and k.value.id == K)]
+                for k in c.keywords:
+                    k.value = self.visit(k.value)
+                c.func = self.visit(c.func)
+                return c
+
+            def visit_Subscript(self, sub):
+                if isinstance(sub.value, ast.Name) and sub.value.id == A and isinstance(sub.ctx, ast.Load):
+                    sl = sub.slice
+                    if isinstance(sl, ast.Constant) and type(sl.value) is int and 0 <= sl.value < len(params):
+                        other_use[0] += 1
+                        return ast.copy_location(ast.Name(id=params[sl.value], ctx=ast.Load()), sub)
+                    if isinstance(sl, ast.Slice) and sl.step is None and all(x is None or (isinstance(x, ast.Constant) and type(x.value) is int and x.value >= 0)
+                                                                             for x in (sl.lower, sl.upper)):
+                        lo = sl.lower.value if sl.lower is not None else 0
+                        hi = sl.upper.value if sl.upper is not None else len(params)
+                        other_use[0] += 1 if params[lo:hi] else 0
+                        return ast.copy_location(ast.List(elts=[ast.Name(id=p_, ctx=ast.Load()) for p_ in params[lo:hi]], ctx=ast.Load()), sub)
+                return self.generic_visit(sub)
+
+            def visit_Starred(self, st_):
+                if isinstance(st_.value, ast.Name) and st_.value.id == A:
+                    other_use[0] += 1
+                    return ast.copy_location(ast.Starred(value=ast.List(elts=[ast.Name(id=p_, ctx=ast.Load()) for p_ in params], ctx=ast.Load()), ctx=ast.Load()), st_)
+                return self.generic_visit(st_)
+        g.body = [D().visit(b) for b in g.body]
+        if any(isinstance(x, ast.Name) and x.id in (A, K) for b in g.body for x in ast.walk(b)):
+            return                                   # some use of args / kwargs was not understood: leave the method as generated
+        g.args = ast.arguments(posonlyargs=[], args=[g.args.args[0]] + [ast.arg(arg=p_) for p_ in params], vararg=None, kwonlyargs=[], kw_defaults=[],
+                               kwarg=None, defaults=[])
+        fold_reflective_calls(g)
+        # `super(C, self)` inside a method installed on C is `super()` of a method written in C's body
+        for c_ in ast.walk(g):
+            if isinstance(c_, ast.Call) and isinstance(c_.func, ast.Name) and c_.func.id == 'super' and len(c_.args) == 2 \
+                    and isinstance(c_.args[0], ast.Name) and c_.args[0].id == ci.name and isinstance(c_.args[1], ast.Name) and c_.args[1].id == g.args.args[0].arg:
+                c_.args = []
+        if K is not None and other_use[0]:
+            self.call_style_operands.append((mname, ci.name, g.name, g))
 
     def _inline_trivial_accessors(self) -> None:
         """A private property or one-line private method of a class - `def _top(self): return self.stack[-1]`,
